@@ -32,7 +32,7 @@ impl Server {
             eprintln!("unable to read TCP stream {}", &message);
 
             let raw_response = Server::bad_request_response(message);
-            let boxed_stream = stream.write(raw_response.borrow());
+            let boxed_stream = stream.write_all(raw_response.borrow());
             if boxed_stream.is_ok() {
                 stream.flush().unwrap();
             };
@@ -54,7 +54,7 @@ impl Server {
             eprintln!("unable to parse request: {}", &message);
 
             let raw_response = Server::bad_request_response(message);
-            let boxed_stream = stream.write(raw_response.borrow());
+            let boxed_stream = stream.write_all(raw_response.borrow());
             if boxed_stream.is_ok() {
                 stream.flush().unwrap();
             };
@@ -74,7 +74,7 @@ impl Server {
         #[cfg(rws_verif)]
         crate::verif_hooks::point("server.process_request.after_generate");
 
-        let boxed_stream = stream.write(raw_response.borrow());
+        let boxed_stream = stream.write_all(raw_response.borrow());
         if boxed_stream.is_ok() {
             stream.flush().unwrap();
         };
@@ -121,7 +121,7 @@ impl Server {
         if boxed_read.is_err() {
             let read_message = boxed_read.err().unwrap().to_string();
             let raw_response = Server::bad_request_response(read_message.clone());
-            let boxed_stream = stream.write(raw_response.borrow());
+            let boxed_stream = stream.write_all(raw_response.borrow());
             if boxed_stream.is_ok() {
                 stream.flush().unwrap();
             } else {
@@ -147,7 +147,7 @@ impl Server {
             let message = boxed_request.err().unwrap();
 
             let raw_response = Server::bad_request_response(message.clone());
-            let boxed_stream = stream.write(raw_response.borrow());
+            let boxed_stream = stream.write_all(raw_response.borrow());
             if boxed_stream.is_ok() {
                 stream.flush().unwrap();
             } else {
@@ -170,7 +170,7 @@ impl Server {
             let message = app_processing.as_ref().err().unwrap().to_string();
             let response = Server::bad_request_response(message);
 
-            let boxed_stream = stream.write(response.borrow());
+            let boxed_stream = stream.write_all(response.borrow());
             if boxed_stream.is_ok() {
                 stream.flush().unwrap();
             } else {
@@ -191,7 +191,7 @@ impl Server {
         #[cfg(rws_verif)]
         crate::verif_hooks::point("server.process.after_generate");
 
-        let boxed_stream = stream.write(raw_response.borrow());
+        let boxed_stream = stream.write_all(raw_response.borrow());
         if boxed_stream.is_ok() {
             stream.flush().unwrap();
         } else {
